@@ -183,6 +183,14 @@ func checkResult(t fataler, cx *groupCtx, res callRes, want ref.Pt, desc string)
 	if res.retNil {
 		t.Fatalf("%s: nil error and nil result pointer", desc)
 	}
+	if got := g.ToRef(res.aff); !E.OnCurve(got) {
+		t.Fatalf("%s: the result is not a point of the curve: %s (want %s)", desc, E.Str(got), E.Str(want))
+	}
+	if res.jac != nil {
+		if got := g.JacToRef(res.jac); !E.OnCurve(got) {
+			t.Fatalf("%s: the Jacobian result (X/Z^2, Y/Z^3 by the reference) is not a point of the curve: %s (want %s)", desc, E.Str(got), E.Str(want))
+		}
+	}
 	if got := g.ToRef(res.aff); !E.Eq(got, want) {
 		t.Fatalf("%s: wrong result:\n got  %s\n want %s", desc, E.Str(got), E.Str(want))
 	}
@@ -243,6 +251,15 @@ func labelsFor(cs *msmCase, ms multiset, cfg config, withStats bool) callLabels 
 	if cs.tie {
 		add("scalars_tied_pairwise")
 	}
+	if strings.HasPrefix(cs.ptClass, "cancel:") {
+		add(cs.ptClass + "/recv:" + recvName[cfg.recv])
+		if cs.n >= 769 {
+			add(cs.ptClass + "/n>=769")
+		}
+	}
+	if cs.exp != nil && cs.exp.Sign() == 0 && cs.n >= 2 && !ms.allTrivial {
+		add("result:O_by_cancellation")
+	}
 	leaves := m.plan(cs.n, cfg.nbTasks)
 	seen := map[int]bool{}
 	depth := 0
@@ -301,7 +318,7 @@ func labelsFor(cs *msmCase, ms multiset, cfg config, withStats bool) callLabels 
 		add("carry_into_last_window")
 	}
 	out.nontrivial = cs.n >= 2 && (ms.repeat || ms.opposite || ms.infinity || ms.zeroScalar || ms.maxScalar ||
-		cfg.class == "sem" || batch || over)
+		cfg.class == "sem" || batch || over || strings.HasPrefix(cs.ptClass, "cancel:"))
 	return out
 }
 
@@ -373,6 +390,23 @@ func propMSM(t *rapid.T, ad adapter, md mode) {
 		targetC, cs.n = drawWindowN(t, m, cands, th, limit)
 	}
 	cfg := drawConfigFor(t, m, cs.n, "cfg1_")
+	// one case in three is a constructed cancellation (total / window / bucket / leaf sums exactly O)
+	cancel := ""
+	if cs.n >= 2 && rapid.IntRange(0, 2).Draw(t, "cancel") == 0 {
+		cancel = rapid.SampledFrom(cancelKinds).Draw(t, "cancelKind")
+		if cancel == "emb_leaf" { // needs a task count under which the call is halved
+			var split []int
+			for _, nb := range taskLattice() {
+				if len(m.plan(cs.n, nb)) > 1 {
+					split = append(split, nb)
+				}
+			}
+			if len(split) > 0 {
+				cfg.nbTasks = rapid.SampledFrom(split).Draw(t, "nbSplit")
+				cfg.class = classOfTasks(cfg.nbTasks)
+			}
+		}
+	}
 	// the window the (first leaf of the) schedule will really use under this task count
 	c := targetC
 	if lv := m.plan(cs.n, cfg.nbTasks); len(lv) > 0 {
@@ -384,14 +418,29 @@ func propMSM(t *rapid.T, ad adapter, md mode) {
 	} else {
 		s = &prng{s: rapid.Uint64().Draw(t, "seed")}
 	}
-	ptClass := rapid.SampledFrom(ptClasses).Draw(t, "points")
-	scClass := rapid.SampledFrom(scClasses).Draw(t, "scalars")
-	if err := cs.genPoints(s, ptClass); err != nil {
-		t.Fatalf("input table validation failed (library BatchScalarMultiplication vs reference — C03 territory, found while preparing C04 inputs): %v", err)
-	}
-	cs.genScalars(s, scClass, c)
-	if (ptClass == "opposite" || ptClass == "repeat" || ptClass == "runs" || ptClass == "pool_small") && rapid.Bool().Draw(t, "tie") {
-		cs.tieScalars()
+	const tableErr = "input table validation failed (library BatchScalarMultiplication vs reference — C03 territory, found while preparing C04 inputs): %v"
+	if cancel != "" {
+		ok, err := cs.genCancel(s, cancel, c, m.plan(cs.n, cfg.nbTasks))
+		if err != nil {
+			t.Fatalf(tableErr, err)
+		}
+		if !ok { // the shape does not allow this construction: total cancellation always works
+			cancel = "total"
+			cs.tbs, cs.note = nil, ""
+			if _, err := cs.genCancel(s, cancel, c, nil); err != nil {
+				t.Fatalf(tableErr, err)
+			}
+		}
+	} else {
+		ptClass := rapid.SampledFrom(ptClasses).Draw(t, "points")
+		scClass := rapid.SampledFrom(scClasses).Draw(t, "scalars")
+		if err := cs.genPoints(s, ptClass); err != nil {
+			t.Fatalf(tableErr, err)
+		}
+		cs.genScalars(s, scClass, c)
+		if (ptClass == "opposite" || ptClass == "repeat" || ptClass == "runs" || ptClass == "pool_small") && rapid.Bool().Draw(t, "tie") {
+			cs.tieScalars()
+		}
 	}
 	cs.build()
 	want := cx.point(cs.exp)
